@@ -123,6 +123,66 @@ func genEnumerated(thorough bool) []Desc {
 	return out
 }
 
+// genOrphans: several sessions are live (Starts acknowledged, files written) when the process dies;
+// the restart finds >= 2 orphaned session files while the server is unreachable (every recovery Stop
+// is dropped, or all but one), so the Stops are QUEUED during one recovery pass; then the server
+// comes back and the queue / retry scan deliver them; Final checks that each orphan got its own Stop.
+func genOrphans(thorough bool) []Desc {
+	var out []Desc
+	ids := [][3]int{{}, {11, 12, 13}, {21, 22, 23}, {31, 32, 33}}
+	for _, n := range []int{2, 3} {
+		var sess []int
+		for s := 1; s <= n; s++ {
+			sess = append(sess, s)
+		}
+		starts := func() []Op {
+			var l []Op
+			for _, s := range sess {
+				l = append(l, Op{K: "start", S: s, ID: ids[s]})
+			}
+			return l
+		}
+		deaths := [][]Op{
+			{{K: "crash"}},
+			{{K: "stop", S: 1, Cause: 1, Cin: ctr(n), Cout: ctr(n + 1), C: 1}},                                   // dies after persisting StopPending
+			{{K: "stop", S: n, Cause: 2, Cin: ctr(n + 2), Cout: ctr(n + 3), Dn: dnIf(true, n, 2), C: 2}},         // dies after the failed send
+			{{K: "itick", Cin: ctr(n + 4), Cout: ctr(n + 5)}, {K: "itick", Cin: ctr(n + 1), Cout: ctr(n), C: 1}}, // dies inside the interim scan
+		}
+		if thorough {
+			deaths = append(deaths,
+				[]Op{{K: "gstop", Cin: ctr(n), Cout: ctr(n + 2), C: 1}},
+				[]Op{{K: "gstop", Cin: ctr(n), Cout: ctr(n + 2), C: 2}},
+				[]Op{{K: "start", S: n, ID: ids[n], C: 2}})
+		}
+		for di, death := range deaths {
+			for _, allDown := range []bool{true, false} {
+				var dn [][2]int
+				for _, s := range sess {
+					if allDown || s != 1 {
+						dn = append(dn, [2]int{s, 2})
+					}
+				}
+				for _, scanFirst := range []bool{false, true} {
+					if !thorough && scanFirst && di > 1 {
+						continue
+					}
+					l := append(starts(), death...)
+					l = append(l, Op{K: "final"}, Op{K: "restart", Dn: dn}, Op{K: "final"})
+					if scanFirst {
+						l = append(l, Op{K: "rtick"})
+					}
+					for range sess {
+						l = append(l, Op{K: "pq"})
+					}
+					l = append(l, Op{K: "rtick"}, Op{K: "final"})
+					out = append(out, Desc{3, l})
+				}
+			}
+		}
+	}
+	return out
+}
+
 // genRandom: up to 3 sessions, random walk over the op alphabet.  guarded = crash-free histories
 // (only Start/Stop/InterimTick/ProcessQueued/RetryTick/Final, no crash points): the stream in
 // which clause 4 holds by theorem.
